@@ -65,6 +65,18 @@ fn define_enum(env: &mut PackageTypeEnv, diagnostics: &mut Diagnostics, enum_def
             (tast::TastIdent(vcon.to_ident_name()), typs)
         })
         .collect();
+    let enum_name = tast::TastIdent(enum_def.name.to_ident_name());
+    if env.current().type_env.structs.contains_key(&enum_name) {
+        diagnostics.push(Diagnostic::new(
+            Stage::Typer,
+            Severity::Error,
+            format!("Type {} is defined as both a struct and an enum", enum_name.0),
+        ));
+        env.current_mut()
+            .type_env
+            .retain_enums(|name, _| name != &enum_name);
+        return;
+    }
     env.current_mut().insert_enum(env::EnumDef {
         name: tast::TastIdent(enum_def.name.to_ident_name()),
         generics: enum_def
